@@ -64,6 +64,21 @@ func (s *seqRun) dumpTree() string {
 			p := it.path + hx([]byte(e.Name))
 			digest := "-"
 			h := e.Name_handle.Handle.Data
+			if !e.Name_attributes.Attributes_follow || !e.Name_handle.Handle_follows {
+				// attributes omitted by the server: ask for them
+				var lr nfstypes.LOOKUP3res
+				if !s.guarded("dump lookup", func() {
+					lr = s.srv.NFSPROC3_LOOKUP(nfstypes.LOOKUP3args{What: nfstypes.Diropargs3{Dir: mkfh3(it.h), Name: e.Name}})
+				}) {
+					return "DEAD"
+				}
+				if lr.Status != nfstypes.NFS3_OK {
+					lines = append(lines, fmt.Sprintf("%s !lookup=%d", p, lr.Status))
+					continue
+				}
+				a = lr.Resok.Obj_attributes.Attributes
+				h = lr.Resok.Object.Data
+			}
 			switch a.Ftype {
 			case nfstypes.NF3REG:
 				if a.Size <= 1<<20 {
